@@ -148,6 +148,12 @@ def step (toks : List String) : String :=
     let out := fun (q : Nat × Boundary.P Float) => outside (fl bx) (fl bY) (fl bz) q.2
     let r := openLoop out 0 tagged
     "ok " ++ " ".intercalate (r.map fun q => toString q.1)
+  | "opensorted" :: bx :: bY :: bz :: rest =>
+    let ps := bp3 rest
+    let tagged := (List.range ps.length).zip ps
+    let out := fun (q : Nat × Boundary.P Float) => outside (fl bx) (fl bY) (fl bz) q.2
+    let r := openLoopSorted out 0 tagged
+    "ok " ++ " ".intercalate (r.map fun q => toString q.1)
   | "openmark" :: bx :: bY :: bz :: rest =>
     let ps := bp3 rest
     let out := outside (fl bx) (fl bY) (fl bz)
